@@ -16,7 +16,7 @@ from ..rfc7518.derive_key import (
 )
 from ..rfc7518.jwe_encs import CBCHS2EncModel
 from ..registry import HeaderParameter
-from ..errors import InvalidEncryptionAlgorithmError
+from ..errors import InvalidEncryptionAlgorithmError, DecodeError
 
 
 __all__ = ['ECDH1PUAlgModel', 'register_ecdh_1pu', 'JWE_ALG_MODELS']
@@ -117,7 +117,10 @@ class ECDH1PUAlgModel(JWEKeyAgreement):
         assert recipient_key is not None
 
         self.check_key_type(recipient_key)
-        ephemeral_key = recipient_key.import_key(headers["epk"])
+        try:
+            ephemeral_key = recipient_key.import_key(headers["epk"])
+        except ValueError as error:
+            raise DecodeError(f'Invalid "epk": {error}')
         sender_shared_key = recipient_key.exchange_derive_key(sender_key)
         ephemeral_shared_key = recipient_key.exchange_derive_key(ephemeral_key)
         shared_key = ephemeral_shared_key + sender_shared_key
